@@ -321,7 +321,7 @@ theorem WF.putCtx {t : Tables} (hw : WF t) {h : Handle} {n : Option CState} (hn 
     · exact hd c e.symm
     · exact hw.cRef c hc
 
-/-- what `applyCItems` needs of an item list over `t`; `strict = false` also admits items `(None, new)` for a handle that is
+/-- what `applyCItems` needs of an item list over `t`; `strict = false` also allows items `(None, new)` for a handle that is
     in the table (a `mk_context_state` whose generated uuid collides) -/
 structure CItemsOK (strict : Bool) (t : Tables) (items : List (Handle × CItem)) : Prop where
   keys : (items.map (·.1)).Nodup
